@@ -29,6 +29,12 @@ pub fn plain(v: &Value) -> Value {
         let s = text(n);
         return if s.starts_with('-') { json!(s.parse::<i64>().unwrap()) } else { json!(s.parse::<u64>().unwrap()) };
     }
+    if let Some(b) = o.get("b") {
+        return Value::Bool(b.as_u64() == Some(1));
+    }
+    if let Some(f) = o.get("f") {
+        return json!(text(f).parse::<f64>().unwrap());
+    }
     if let Some(u) = o.get("u") {
         return Value::String(text(u));
     }
@@ -184,7 +190,7 @@ pub fn replay(o: &Opts) -> Value {
                             Ok(l) => {
                                 let l = normalize(l, indent.is_some());
                                 if !model_fail && l != tree {
-                                    note(&mut local_bad, &["c13"], "document-differs-from-the-data", json!({"doc": doc, "read_back": l}));
+                                    note(&mut local_bad, if indent.is_some() { &["c13", "c19"] } else { &["c13"] }, "document-differs-from-the-data", json!({"doc": doc, "read_back": l}));
                                 }
                             }
                         }
